@@ -23,6 +23,17 @@ the new writer found — so no value appears that neither the dead writer nor th
 value slot of a new entry unwritten shows up here: the slot lands on the orphaned entry of the killed writer).  The same
 continuation runs in the model (`c10 cont`).
 
+Second generation: at a sample of the cuts the new writer's own file effects are recorded while it continues (keys the
+collector can parse) and every cut of THAT writer is materialised, read, collected and reopened again (crash, reopen,
+continue, crash again); the oracle is the prefix-state oracle started from what the new writer found (`c10 gen2` in the model).
+
+Vanishing files: a worker file is removed between the collector's glob and its read (prometheus_client.multiprocess.glob is
+shimmed): a live-gauge file must be skipped (C11:vanished-live-gauge-fails-scrape otherwise); for other names the observed
+FileNotFoundError is compared with the model's listing loop (`c10 listed`).
+
+Two read() calls: the file reader's first read() sees the file at cut k1, its second at a later cut k2 (entries beyond one
+page): no exception, exactly the keys published at k1, every value/timestamp held at k1 or k2 (C11:two-reads-*; `c10 read2`).
+
 All keys of the histories are built with mmap_dict.mmap_key so that the collector can parse them (continuation keys are plain).
 
 Thorough tier: forked writers run a long seeded history and are SIGKILLed at random instants; the same three observations and
@@ -182,7 +193,7 @@ class Recorded:
     __slots__ = ('effects', 'bounds', 'err', 'final')
 
 
-def record_history(md, path, init, ops):
+def record_history(md, path, init, ops, start=None):
     """run the history on the real store, recording the effects; bounds[s] = number of effects after step s
     (step 0 = constructor, step i = operation i)"""
     saved = md._INITIAL_MMAP_SIZE
@@ -192,6 +203,9 @@ def record_history(md, path, init, ops):
     d = None
     if os.path.exists(path):
         os.unlink(path)
+    if start is not None:            # a later generation: the writer finds this file
+        with open(path, 'wb') as fp:
+            fp.write(start)
     rec = Recorder(md)
     try:
         with rec:
@@ -463,12 +477,36 @@ def file_str(content):
 
 
 # ------------------------------------------------------------------------------------------------- the oracle
+def ref_states_from(start, ops):
+    """states[i] = tuple of (key, vbits, tbits) after the first i operations, from the state `start`"""
+    st = list(start)
+    idx = {k: i for i, (k, _, _) in enumerate(st)}
+    states = [tuple(st)]
+    for op in ops:
+        if op[0] == 'w':
+            k = kstr(op[1])
+            if k in idx:
+                st[idx[k]] = (k, op[2], op[3])
+            else:
+                idx[k] = len(st)
+                st.append((k, op[2], op[3]))
+        elif op[0] == 'r':
+            k = kstr(op[1])
+            if k not in idx:
+                idx[k] = len(st)
+                st.append((k, 0, 0))
+        states.append(tuple(st))
+    return states
+
+
 class Ref:
     """reference states of a history, rendered in the readers' notation"""
 
-    def __init__(self, ops):
+    def __init__(self, ops, start=(), before=()):
+        """`start`: the state the writer found; `before`: operations of earlier generations (their keys and values may
+        legitimately be in the file)"""
         self.ops = ops
-        self.states, _ = base.ref_states(ops)
+        self.states = ref_states_from(start, ops)
         self.strs = [triples_str(s) for s in self.states]
         self.inflight = []          # per j: the state j plus op j's new key at (0,0), or None
         for j, op in enumerate(ops):
@@ -479,8 +517,8 @@ class Ref:
                     s = triples_str(self.states[j] + ((k, 0, 0),))
             self.inflight.append(s)
         self.inflight.append(None)
-        self.keys = {kstr(o[1]) for o in ops if o[0] != 'o'}
-        self.written = {(kstr(o[1]), o[2], o[3]) for o in ops if o[0] == 'w'}
+        self.keys = {kstr(o[1]) for o in list(ops) + list(before) if o[0] != 'o'} | {k for k, _, _ in start}
+        self.written = {(kstr(o[1]), o[2], o[3]) for o in list(ops) + list(before) if o[0] == 'w'} | set(start)
 
     def classify(self, r):
         """the model's notation: first p<j>, else first i<j>, else none"""
@@ -661,7 +699,7 @@ def fresh_key_for(md, ops):
 
 
 def check_history(ctx, judge, md, scratch, init, ops, model_reply, label, only_cut=None, verbose=False, pending=None,
-                  cont_override=None):
+                  cont_override=None, pending2=None, cont2_override=None, gen2_every=5):
     """record, compare the trace with the model, then every cut.  Returns the Recorded object (or None)."""
     path = os.path.join(scratch.copydir, 'recording.db')
     rec = record_history(md, path, init, ops)
@@ -734,6 +772,12 @@ def check_history(ctx, judge, md, scratch, init, ops, model_reply, label, only_c
                 '%s rv=%s' % (short_triples(o[0], 120), o[2]) for o in cobs), '' if cerr is None else ' then ' + cerr))
         if pending is not None:
             pending.append((head, case, init, ops, k, cont, cobs, cerr))
+        # second generation: the new writer crashes, too (a sample of the cuts; every cut when replaying)
+        if (only_cut is not None or (7 * k + len(ops)) % gen2_every == 0) and not reader.startswith('!') \
+                and ref.admissible(reader, completed, in_op):
+            c2 = dict(case, cont2=cont2_override) if cont2_override else case
+            check_second_generation(ctx, judge, md, scratch, init, ops, k, content, reader, head, c2, pending2, verbose)
+            scratch.put(fname, content)
         if kind == 'after-truncate-initial-all-zero':
             # pinned explicitly: an all-zero file of full size reads as empty and reopens with used = 8
             if reader != '.' or collect != 'ok' or not same_summary('ok:8:%d:0:.' % len(content), reopen[0]):
@@ -753,6 +797,290 @@ def check_history(ctx, judge, md, scratch, init, ops, model_reply, label, only_c
     return rec
 
 
+# ------------------------------------------------------------------------------------------------- second generation
+def continuation_json(md, ops, k):
+    """a continuation whose keys the collector can parse (for the cuts of the SECOND generation)"""
+    hkeys = [kstr(o[1]) for o in ops if o[0] != 'o']
+    longest = max(hkeys, key=lambda x: len(x.encode('utf-8'))) if hkeys else md.mmap_key('k', 'k', [], [], '')
+    n = len(longest.encode('utf-8'))
+    short = md.mmap_key('g', 'g', [], [], '')
+    equal = md.mmap_key('g', 'g', [], [], 'e' * max(n - 18, 1))
+    longer = md.mmap_key('g2', 'g2_total', ['gen'], ['second'], 'x' * n)
+    (v1, t1), (v2, t2), (v3, t3) = CONT_BITS
+    patterns = (
+        [['w', short, v1, t1], ['w', longer, v2, t2]],
+        [['r', equal], ['w', longest, v3, t3]],
+        [['w', longer, v2, t2], ['o'], ['r', short]],
+        [['w', longest, v1, t2], ['w', equal, v3, t1]],
+    )
+    return [list(o) for o in patterns[(k + 2 * len(ops)) % len(patterns)]]
+
+
+def check_second_generation(ctx, judge, md, scratch, init, ops, k, content, found, head, case, pending2, verbose=False):
+    """crash -> a new writer opens the file, continues, crashes again: every cut of THAT writer is materialised and read"""
+    cont = case.get('cont2') or continuation_json(md, ops, k)
+    case = dict(case, cont2=cont)
+    path = os.path.join(scratch.copydir, 'recording2.db')
+    rec2 = record_history(md, path, init, cont, start=bytes(content))
+    h2 = head + 'second generation [%s]: ' % short_ops(cont)
+    if rec2.err is not None:
+        judge.fail('C11:continuation-raises', h2 + 'operation #%d raised %s' % (rec2.err[0], rec2.err[2]), case)
+        return
+    ref2 = Ref(cont, start=parse_triples(found), before=ops)
+    fresh = fresh_key_for(md, list(ops) + list(cont))
+    fname = 'gauge_all_777.db'
+    cur = bytearray(content)
+    rows = []
+    for j in range(1, len(rec2.effects) + 1):
+        cur = apply_effect(cur, rec2.effects[j - 1])
+        completed, inside, step = position(rec2.bounds, j)
+        in_op = inside and step >= 1
+        hj = h2 + 'cut after its effect %d/%d (%s): ' % (j, len(rec2.effects), short_triples(eff_str(rec2.effects[j - 1]), 60))
+        cj = dict(case, cut2=j)
+        p = scratch.put(fname, cur)
+        reader = base.file_reader(md, p)
+        collect = observe_collect(scratch.dir)
+        reopen = observe_reopen(md, p, os.path.join(scratch.copydir, fname), init, fresh)
+        ctx.case(None, None)
+        ctx.count('second-generation-cuts')
+        if verbose:
+            print('REPLAY   gen2 cut %d: file %s reader=%s collect=%s reopen=%s' % (
+                j, short_triples(file_str(cur), 100), short_triples(reader, 160), collect, short_triples(reopen[0], 120)))
+        judge_file(judge, ref2, hj, cj, len(cur), reader, completed, in_op)
+        judge_collect(judge, hj, cj, [len(cur)], collect)
+        judge_reopen(judge, ref2, hj, cj, reopen, completed, in_op, fresh)
+        rows.append((eff_str(rec2.effects[j - 1]), file_str(cur), reader, reopen[0], ref2.classify(reader)))
+    if pending2 is not None:
+        pending2.append((h2, case, init, ops, k, cont, rows))
+
+
+def gen2_line(init, ops, k, cont):
+    return 'c10 gen2 %d %d %s %d %s' % (init, PAGE, base.enc_ops(ops), k, base.enc_ops(cont))
+
+
+def compare_second_generation(ctx, pending2):
+    if not pending2:
+        return
+    replies = base.drv(ctx, [gen2_line(init, ops, k, cont) for (_, _, init, ops, k, cont, _) in pending2])
+    if replies is None:
+        return
+    for (h2, case, init, ops, k, cont, rows), rep in zip(pending2, replies):
+        if not rep.startswith('ok ') or rep.startswith('ok !'):
+            if rep != 'ok !Timeout':
+                ctx.diverge(h2 + 'driver: %s' % rep[:200], case)
+            continue
+        mcuts = [c.split(',') for c in rep[3:].split(';')][1:]
+        if len(mcuts) != len(rows):
+            ctx.diverge(h2 + 'the model performs %d file effects, the implementation %d' % (len(mcuts), len(rows)), case)
+            continue
+        for j, (m, mine) in enumerate(zip(mcuts, rows)):
+            for name, a, b in zip(('effect', 'file', 'file reader', 'reopen', 'classification'), m, mine):
+                if a == '!Timeout' or (name == 'classification' and m[2] == '!Timeout'):
+                    ctx.count('cut-leaves-the-model')
+                elif a != b and not (name == 'reopen' and same_summary(a, b)):
+                    ctx.diverge(h2 + 'cut %d %s: model %s, implementation %s' % (j + 1, name, short_triples(a, 200), short_triples(b, 200)),
+                                dict(case, cut2=j + 1))
+                    break
+        ctx.count('second-generations-compared-with-model')
+
+
+# ------------------------------------------------------------------------------------------------- vanishing files
+def run_vanish(ctx, judge, md, tmp):
+    """a worker file disappears between the collector's directory listing and its read (mark_process_dead does that to
+    live-gauge files): a live-gauge file must just be skipped; what happens for other names is compared with the model"""
+    import prometheus_client.multiprocess as mp
+    from prometheus_client import CollectorRegistry
+    d = os.path.join(tmp, 'vanish')
+    os.makedirs(d)
+    make_healthy(md, d)
+    real_glob = mp.glob
+    names = ['gauge_liveall_777.db', 'gauge_livesum_777.db', 'gauge_livemax_777.db', 'gauge_livemin_777.db',
+             'gauge_livemostrecent_777.db', 'gauge_all_777.db', 'gauge_sum_777.db', 'gauge_mostrecent_777.db',
+             'counter_777.db', 'histogram_777.db', 'summary_777.db']
+    key = md.mmap_key('pv_v', 'pv_v', ['a'], ['b'], 'vanishing')
+    lines, obs = [], []
+    try:
+        for victim in names:
+            for other in (None, 'gauge_liveall_778.db', 'counter_778.db'):
+                for f in os.listdir(d):
+                    if f != HEALTHY_FILE:
+                        os.unlink(os.path.join(d, f))
+                present = [victim] + ([other] if other else [])
+                for f in present:
+                    s = md.MmapedDict(os.path.join(d, f))
+                    s.write_value(key, 1.5, 2.0)
+                    s.close()
+                listing = sorted(os.listdir(d))
+
+                class Shim:
+                    def __getattr__(self, n):
+                        return getattr(real_glob, n)
+
+                    def glob(self, pattern, *a, **kw):
+                        r = real_glob.glob(pattern, *a, **kw)
+                        vp = os.path.join(d, victim)
+                        if os.path.exists(vp):
+                            os.unlink(vp)          # removed after the listing, before the read
+                        return r
+                mp.glob = Shim()
+                try:
+                    try:
+                        ms = list(mp.MultiProcessCollector(CollectorRegistry(), d).collect())
+                        res = 'ok' if any(m.name == 'pv_healthy' for m in ms) else 'missing'
+                    except Exception as e:  # noqa
+                        res = '!' + errname(e)
+                finally:
+                    mp.glob = real_glob
+                parts = victim.split('_')
+                live = parts[0] == 'gauge' and parts[1].startswith('live')
+                case = {'kind': 'vanish', 'victim': victim, 'other': other}
+                ctx.case(('vanish', victim, other), {'vanished': victim, 'other files': [HEALTHY_FILE] + ([other] if other else []), 'collect': res})
+                ctx.count('vanish-' + ('live-gauge' if live else 'other-file') + '-' + res.lstrip('!'))
+                if live and res != 'ok':
+                    judge.fail('C11:vanished-live-gauge-fails-scrape',
+                               'the live-gauge file %s is removed (as mark_process_dead does) between the directory listing and the read: '
+                               'collect() gives %s instead of skipping it' % (victim, res), case)
+                ents = []
+                for f in listing:
+                    pr = f.split('_')
+                    if f == victim:
+                        body = 'v'
+                    else:
+                        with open(os.path.join(d, f), 'rb') as fp:
+                            body = 'x:' + fp.read().rstrip(b'\x00').hex() + '00' * 16
+                    ents.append('%s:%s:%s' % (pr[0].encode().hex(), pr[1].encode().hex(), body))
+                lines.append('c10 listed %d %s' % (PAGE, ';'.join(ents)))
+                obs.append((case, victim, res))
+        replies = base.drv(ctx, lines)
+        if replies is not None:
+            for (case, victim, res), rep in zip(obs, replies):
+                ctx.traces += 1
+                m = 'ok' if rep.startswith('ok ') and not rep.startswith('ok !') else rep[3:]
+                r = 'ok' if res in ('ok', 'missing') else res
+                if m != r:
+                    ctx.diverge('vanished file %s: model collector %s, implementation %s' % (victim, rep, res), case)
+    finally:
+        mp.glob = real_glob
+        shutil.rmtree(d, ignore_errors=True)
+
+
+# ------------------------------------------------------------------------------------------------- two read() calls, two moments
+def trimmed(raw):
+    """the file without its zero tail, but at least as long as its header says"""
+    u = struct.unpack_from('<i', raw, 0)[0] if len(raw) >= 4 else 0
+    n = max(len(raw.rstrip(b'\x00')), min(max(u, 8), len(raw)))
+    return raw[:n]
+
+
+def run_two_reads(ctx, judge, md, tmp, real_size):
+    """the collector's reader does up to two read() calls; let the first see the file at cut k1 and the second at a later
+    cut k2 (a history whose entries exceed one page).  Oracle: no exception, exactly the keys of an atomic read at k1, every
+    value and every timestamp one that an atomic read at k1 or k2 returns for that key."""
+    rng = ctx.rng
+    keys = [md.mmap_key('pv_two_%d' % i, 'pv_two_%d_total' % i, ['pad'], ['p' * rng.randint(150, 260)], 'h') for i in range(24)]
+    ops = []
+    for i, k in enumerate(keys):
+        ops.append(['w', k, 0x3ff0000000000000 + i, 0x41d9be7a80000000 + i])
+        if i % 3 == 2:
+            j = rng.randrange(i + 1)
+            ops.append(['w', keys[j], 0x4000000000000000 + 16 * i, 0x41d9be7a90000000 + 16 * i])
+    path = os.path.join(tmp, 'two-reads.db')
+    rec = record_history(md, path, real_size, ops)
+    if rec.err is not None:
+        judge.fail('C11:writer-raises', 'two-read history raised %s' % rec.err[2], {'kind': 'two-reads'})
+        return
+    cuts, cur = [], None
+    for e in rec.effects:
+        cur = apply_effect(cur, e)
+        cuts.append(bytes(cur))
+    cand = [i for i, c in enumerate(cuts) if len(c) >= 8]
+    pairs = []
+    for _ in range(60 if ctx.tier == 'quick' else 600):
+        a = rng.choice(cand)
+        b = rng.choice([x for x in cand if x >= a])
+        pairs.append((a, b))
+    pairs += [(a, a + 1) for a in cand[-40:-1:3]] + [(cand[len(cand) // 2], cand[-1])]
+    f1p, f2p = os.path.join(tmp, 'two-a.db'), os.path.join(tmp, 'two-b.db')
+
+    class TwoFile:
+        """first read() from file 1, later read()s from file 2 at the same offset"""
+
+        def __init__(self):
+            self.a, self.b, self.n = builtins.open(f1p, 'rb'), builtins.open(f2p, 'rb'), 0
+
+        def read(self, size=-1):
+            src = self.a if self.n == 0 else self.b
+            src.seek(self.a.tell() if self.n == 0 else self.pos)
+            data = src.read(size)
+            self.pos = src.tell()
+            self.n += 1
+            return data
+
+        def __enter__(self):
+            return self
+
+        def __exit__(self, *x):
+            self.a.close()
+            self.b.close()
+            return False
+
+    def open_(file, mode='r', *a, **kw):
+        if file == 'TWO' and mode == 'rb':
+            return TwoFile()
+        return builtins.open(file, mode, *a, **kw)
+
+    lines, got = [], []
+    had = 'open' in md.__dict__
+    saved = md.__dict__.get('open')
+    md.open = open_
+    try:
+        for (a, b) in pairs:
+            with open(f1p, 'wb') as fp:
+                fp.write(cuts[a])
+            with open(f2p, 'wb') as fp:
+                fp.write(cuts[b])
+            r = base.file_reader(md, 'TWO')
+            r1, r2 = base.file_reader(md, f1p), base.file_reader(md, f2p)
+            case = {'kind': 'two-reads', 'seed': ctx.seed, 'cut1': a + 1, 'cut2': b + 1}
+            head = 'history of %d writes over %d long keys at size %d, first read() at cut %d, second at cut %d: ' % (len(ops), len(keys), real_size, a + 1, b + 1)
+            ctx.case(('two-reads', a, b), {'cut1': a + 1, 'cut2': b + 1, 'result': short_triples(r, 80)})
+            ctx.count('two-reads-' + ('same-cut' if a == b else 'header-covers-more-than-a-page' if struct.unpack_from('<i', cuts[a], 0)[0] > PAGE else 'one-page'))
+            if r.startswith('!') or r1.startswith('!') or r2.startswith('!'):
+                judge.fail('C11:two-reads-raise', head + 'reader gives %s (atomic reads: %s / %s)' % (r, short_triples(r1, 60), short_triples(r2, 60)), case)
+            else:
+                t, t1, t2 = parse_triples(r), parse_triples(r1), parse_triples(r2)
+                if [x[0] for x in t] != [x[0] for x in t1]:
+                    judge.fail('C11:two-reads-unpublished-entry', head + 'the keys returned are not those published at the first cut: %s vs %s' % (
+                        short_triples(r, 120), short_triples(r1, 120)), case)
+                else:
+                    vals = {}
+                    for k, v, tt in t1 + t2:
+                        vals.setdefault(k, (set(), set()))
+                        vals[k][0].add(v)
+                        vals[k][1].add(tt)
+                    for k, v, tt in t:
+                        if v not in vals[k][0] or tt not in vals[k][1]:
+                            judge.fail('C11:two-reads-unwritten-value', head + 'key %s is returned with (0x%016x, 0x%016x), which neither cut holds' % (
+                                base.short_key(k), v, tt), case)
+                            break
+            lines.append('c10 read2 %d x:%s x:%s' % (PAGE, trimmed(cuts[a]).hex(), trimmed(cuts[b]).hex()))
+            got.append((r, case, head))
+    finally:
+        if had:
+            md.open = saved
+        else:
+            try:
+                del md.open
+            except AttributeError:
+                pass
+    replies = base.drv(ctx, lines)
+    if replies is not None:
+        for (r, case, head), rep in zip(got, replies):
+            ctx.traces += 1
+            if rep != 'ok ' + r:
+                ctx.diverge(head + 'model two-snapshot reader %s, implementation %s' % (short_triples(rep, 160), short_triples(r, 160)), case)
+
+
 def cuts_line(init, ops):
     return 'c10 cuts %d %d %s' % (init, PAGE, base.enc_ops(ops))
 
@@ -760,15 +1088,20 @@ def cuts_line(init, ops):
 def run_histories(ctx, judge, md, scratch, cases, label):
     replies = base.drv(ctx, [cuts_line(init, ops) for init, ops in cases])
     recs = []
-    pending = []
+    pending, pending2 = [], []
     for i, (init, ops) in enumerate(cases):
-        rec = check_history(ctx, judge, md, scratch, init, ops, None if replies is None else replies[i], label, pending=pending)
+        rec = check_history(ctx, judge, md, scratch, init, ops, None if replies is None else replies[i], label, pending=pending,
+                            pending2=pending2, gen2_every=5 if init == SMALL else 11)
         if rec is not None and rec.err is None:
             recs.append((init, ops, rec))
         if len(pending) >= 1500:
             compare_continuations(ctx, pending)
             pending = []
+        if len(pending2) >= 500:
+            compare_second_generation(ctx, pending2)
+            pending2 = []
     compare_continuations(ctx, pending)
+    compare_second_generation(ctx, pending2)
     return recs
 
 
@@ -1069,6 +1402,11 @@ def run(ctx):
     try:
         scratch = Scratch(md, tmp, 'mp')
         recs = []
+        run_vanish(ctx, judge, md, tmp)
+        saved_rng = ctx.rng
+        ctx.rng = random.Random((ctx.seed * 1000003) ^ lib.hash_str('C11-two'))
+        run_two_reads(ctx, judge, md, tmp, real_size)
+        ctx.rng = saved_rng
         cs = corpus(md)
         recs += run_histories(ctx, judge, md, scratch, [(init, ops) for ops in cs for init in (SMALL, real_size)], 'corpus')
         alpha = exhaustive_alphabet(md)
@@ -1114,11 +1452,17 @@ def replay(ctx, case):
             init, ops = int(c['init']), c['ops']
             print('REPLAY initial size %d, history [%s], cut %s' % (init, short_ops(ops, 40), c.get('cut')))
             rep = base.drv(ctx, [cuts_line(init, ops)])
-            pending = []
+            pending, pending2 = [], []
             check_history(ctx, judge, md, scratch, init, ops, None if rep is None else rep[0], 'replay',
                           only_cut=int(c['cut']) if c.get('cut') is not None else None, verbose=True, pending=pending,
-                          cont_override=c.get('cont'))
+                          cont_override=c.get('cont'), pending2=pending2, cont2_override=c.get('cont2'))
             compare_continuations(ctx, pending)
+            compare_second_generation(ctx, pending2)
+        elif kind == 'vanish':
+            run_vanish(ctx, judge, md, tmp)
+        elif kind == 'two-reads':
+            ctx.rng = random.Random((int(c.get('seed', ctx.seed)) * 1000003) ^ lib.hash_str('C11-two'))
+            run_two_reads(ctx, judge, md, tmp, real_size)
         elif kind == 'pair':
             sides = []
             for s in (c['a'], c['b']):
